@@ -322,6 +322,165 @@ def run_exact(ctx, n_cases):
     return ok
 
 
+# ---- zip-up product (zip_right_step / zip_right, through MPO.apply_to and MPO.__matmul__) -----------------------
+ZIP_HEADER = """From Coq Require Import ZArith List Bool.
+Import ListNotations.
+From EV Require Import Model.TransferMat Model.MPSAlg Model.Zip.
+Open Scope Z_scope."""
+
+
+def _gmat(m) -> str:
+    return "[" + ";".join("[" + ";".join(gi(x) for x in row) + "]" for row in m.tolist()) + "]"
+
+
+def _unimodular(rng, k):
+    """(G, G^-1) with Gaussian-integer entries, G = U L with unitriangular factors (determinant 1)"""
+    import numpy as np
+
+    def unitri(upper):
+        m = np.eye(k, dtype=np.complex128)
+        for i in range(k):
+            for j in range(k):
+                if (j > i) == upper and i != j and rng.random() < 0.5:
+                    m[i, j] = complex(rng.randint(-1, 1), rng.choice([0, 0, 1, -1]))
+        return m
+
+    u, lo = unitri(True), unitri(False)
+    g = u @ lo
+    ginv = np.round(np.linalg.inv(lo)) @ np.round(np.linalg.inv(u))
+    ginv = np.round(ginv.real) + 1j * np.round(ginv.imag)
+    if not (np.array_equal(g @ ginv, np.eye(k)) and np.array_equal(ginv @ g, np.eye(k))):
+        return np.eye(k, dtype=np.complex128), np.eye(k, dtype=np.complex128)
+    return g, ginv
+
+
+class _ScriptedQR:
+    """Rebinds torch.linalg.qr to an exact, scripted factorisation and emu_mps.algebra.truncate_impl to a no-op for the
+    duration of one call, so that the real zip_right runs its own contractions / reshapes on exact data."""
+
+    def __init__(self, kind, gauges):
+        self.kind, self.gauges, self.calls, self.max_abs = kind, gauges, 0, 0.0
+
+    def __enter__(self):
+        import torch
+        import emu_mps.algebra as alg
+
+        self._qr, self._tr = torch.linalg.qr, alg.truncate_impl
+
+        def qr(m, *a, **k):
+            i = self.calls
+            self.calls += 1
+            self.max_abs = max(self.max_abs, float(m.abs().max()) if m.numel() else 0.0)
+            rows, cols = m.shape
+            if self.kind == "left_identity":
+                return torch.eye(rows, dtype=m.dtype), m.clone()
+            if self.kind == "gauge" and i < len(self.gauges):
+                g, ginv = self.gauges[i]
+                return m @ torch.tensor(g, dtype=m.dtype), torch.tensor(ginv, dtype=m.dtype)
+            return m.clone(), torch.eye(cols, dtype=m.dtype)
+
+        torch.linalg.qr = qr
+        alg.truncate_impl = lambda *a, **k: None
+        return self
+
+    def __exit__(self, *exc):
+        import torch
+        import emu_mps.algebra as alg
+
+        torch.linalg.qr, alg.truncate_impl = self._qr, self._tr
+        return False
+
+
+def zip_cases(ctx, n_cases):
+    import torch
+    from emu_mps.mps import MPS
+    from emu_mps.mpo import MPO
+    from emu_mps.algebra import zip_right
+
+    rng = ctx.rng
+    items = []
+    for k in range(n_cases):
+        how = rng.choice(["apply_to", "apply_to", "matmul", "matmul", "raw", "malformed"])
+        d = rng.choice([2, 2, 3])
+        n = rng.randint(2, 4 if d == 2 else 3)
+        mpo_bottom = how == "matmul" or (how in ("raw", "malformed") and rng.random() < 0.5)
+        e = d if mpo_bottom else 1
+        chimax = rng.randint(1, 3)
+        top = rand_gi_chain(rng, n, d, chimax, mpo=True)
+        bot = rand_gi_chain(rng, n, d, chimax, mpo=mpo_bottom)
+        kind = rng.choice(["identity", "left_identity", "gauge", "gauge"])
+        gauges = []
+        if kind == "gauge":
+            for i in range(n):
+                gauges.append(_unimodular(rng, top[i].shape[-1] * bot[i].shape[-1]))
+        case = {"kind": "zip:" + how, "n": n, "d": d, "e": e, "oracle": kind, "idx": k,
+                "bonds": [[t.shape[0] for t in top] + [1], [t.shape[0] for t in bot] + [1]]}
+        if how == "malformed":
+            bad = rng.choice(["length", "bond"])
+            if bad == "length":
+                bot = bot[:-1] if n > 2 and rng.random() < 0.5 else bot + [bot[-1].clone()]
+            else:  # break one inner bond of the operand
+                i = rng.randint(1, n - 1)
+                extra = torch.zeros_like(bot[i][:1])
+                bot[i] = torch.cat([bot[i], extra], dim=0)
+            case["bad"] = bad
+        want = ("Some", True)
+        res = []
+        with _ScriptedQR(kind, gauges) as stub:
+            try:
+                if how == "apply_to":
+                    res = MPO([t.clone() for t in top]).apply_to(
+                        MPS([t.clone() for t in bot], orthogonality_center=0, eigenstates=_eig(d))).factors
+                elif how == "matmul":
+                    res = (MPO([t.clone() for t in top]) @ MPO([t.clone() for t in bot])).factors
+                else:
+                    res = zip_right([t.clone() for t in top], [t.clone() for t in bot], 1e-5, 1024)
+            except (ValueError, RuntimeError, IndexError) as ex:
+                want, res = None, []
+                case["raised"] = type(ex).__name__
+        big = max([stub.max_abs] + [float(t.abs().max()) for t in res if t.numel()])
+        if big >= EXACT_LIMIT:
+            continue  # not exactly representable: outside the exact tie
+        if kind == "left_identity":
+            q = "qr_left_identity"
+        elif kind == "gauge":
+            q = "(qr_gauge [" + ";".join(f"({_gmat(g)},{_gmat(gi_)})" for g, gi_ in gauges) + "])"
+        else:
+            q = "(qr_gauge [])"
+        expr = f"zip_eqb {d}%nat {e}%nat {q} {raws(top)} {raws(bot)} {raws(res)}"
+        items.append((case, expr, want, how != "malformed"))
+    return items
+
+
+def run_zip(ctx, n_cases):
+    from vlib.coqparse import parse
+
+    items = zip_cases(ctx, n_cases)
+    ok, detail = True, ""
+    hist = {}
+    try:
+        ev = common.CoqEval("C11zip", ZIP_HEADER)
+        for case, expr, want, nt in items:
+            ev.add(expr)
+        outs = ev.run(shard=25, jobs=8)
+        for (case, expr, want, nt), o in zip(items, outs):
+            got = parse(o)
+            ctx.count_case(case, nt)
+            key = case["kind"] + "/" + case["oracle"] + ("/raised" if want is None else "")
+            hist[key] = hist.get(key, 0) + 1
+            if _norm(got) != _norm(want) and ok:
+                ok = False
+                detail = f"case={case} model={str(got)[:400]} real={str(want)[:400]}"
+                ctx.extra["first_zip_disagreement"] = {"case": case, "model": str(got)[:2000], "real": str(want)[:2000],
+                                                       "expr": expr[:4000]}
+    except (common.CoqEvalError, ValueError) as ex:
+        ok, detail = False, str(ex)
+    ctx.extra["zip_case_kinds"] = hist
+    ctx.obligation("correspondence:Model.Zip(Z[i], scripted QR)==zip_right via MPO.apply_to/MPO.__matmul__ (exact, every factor)",
+                   ok, detail, kind="correspondence")
+    return ok
+
+
 # ---- falsifier: every public operation against dense linear algebra (floating point, tolerances stated) ----
 def rand_c_mps(rng, n, d, chimax, tgen, normalise=True):
     import torch
@@ -832,11 +991,12 @@ def run(ctx):
     import torch
 
     torch.set_num_threads(1)
-    model_rc, model_out = common.coq_make(["Model/MPSAlg.vo"])
-    ctx.obligation("build:Model/MPSAlg.vo", model_rc == 0, model_out, kind="build")
+    model_rc, model_out = common.coq_make(["Model/MPSAlg.vo", "Model/Zip.vo"])
+    ctx.obligation("build:Model/MPSAlg.vo Model/Zip.vo", model_rc == 0, model_out, kind="build")
     common.standard_proof_stage(ctx, "C11", ["Properties/C11.vo"])
     if model_rc == 0:
         run_exact(ctx, ctx.n(120, 1500))
+        run_zip(ctx, ctx.n(60, 600))
     run_public(ctx, ctx.n(150, 3000))
     run_precision(ctx, ctx.n(200, 3000))
     ctx.rule = ("exact stream: random Gaussian-integer tensor trains (2-8 sites, bonds 1-6, d in {2,3}, MPO factors "
@@ -844,7 +1004,9 @@ def run(ctx):
                 "falsifier stream: 12 public operations on random complex MPS/MPO (2-8 sites, bonds <= 16, d in {2,3}, "
                 "precision 1e-10..1e-3, all three bases for the constructors); corpus witnesses first; non-trivial unless "
                 "malformed-shape or empty dictionary; distinct by input hash")
-    ctx.trusted_base += ["hand model coq/Model/MPSAlg.v + Model/TransferMat.v (validated by the exact correspondence of this run)",
+    ctx.trusted_base += ["hand models coq/Model/MPSAlg.v + Model/Zip.v + Model/TransferMat.v (validated by the exact correspondences of this run)",
+                         "zip tie: torch.linalg.qr and emu_mps.algebra.truncate_impl are rebound by the harness (scripted exact QR, no truncation); "
+                         "that LAPACK's QR satisfies L R = M up to rounding is the oracle premise of C11_zip_contract, validated by the dense falsifier",
                          "torch dense contractions (tensordot / kron / svdvals) as independent reference of the falsifier",
                          "MPO factors are compared after reshape (l,o,i,r)->(l,o*d+i,r)"]
     ctx.assumptions += [
@@ -880,13 +1042,20 @@ META = {
     "technique": "Coq proof (transfer-matrix model over any commutative ring with involution) + exact Gaussian-integer correspondence + dense falsifier",
     "text": ("Proved for every number of sites >= 2, all bond dimensions, every index string, over every commutative ring: "
              "add_factors represents the sum (MPS amplitudes and MPO elements), scale_factors multiplies every amplitude by c "
-             "whichever site carries it, MPS.inner equals sum_b conj(amp A b)*amp B b. The Gallina model is executed at Z[i] and "
-             "compared exactly with add_factors / scale_factors / MPS.__rmul__ / MPO.__add__ / MPO.__rmul__ / MPS.inner on "
-             "Gaussian-integer tensors (full result tensors and sampled amplitudes), including which shape errors raise. "
+             "whichever site carries it, MPS.inner equals sum_b conj(amp A b)*amp B b; and for every number of sites >= 1, every "
+             "physical dimension and EVERY QR oracle that factorises (L R = M, any inner dimension): the zip-up product zip_right "
+             "(what MPO.apply_to and MPO.__matmul__ run before the truncation sweep of C10) has the amplitudes of the dense product, "
+             "(O psi)(o) = sum_m O(o,m) psi(m) and (O1 O2)(o,j) = sum_m O1(o,m) O2(m,j) (C11_zip_contract; gauge invariance through "
+             "the slider by induction over the sites, then the fat chain as a sum over contracted strings). The Gallina model is "
+             "executed at Z[i] and compared exactly with add_factors / scale_factors / MPS.__rmul__ / MPO.__add__ / MPO.__rmul__ / "
+             "MPS.inner on Gaussian-integer tensors (full result tensors and sampled amplitudes), including which shape errors raise; "
+             "Model/Zip.v is compared factor by factor with the real zip_right driven through MPO.apply_to / MPO.__matmul__ / directly, "
+             "with torch.linalg.qr rebound to the same scripted exact factorisation (L=M,R=I / L=I,R=M / L=M G,R=G^-1 for random "
+             "unimodular Gaussian-integer G per site) and truncate_impl rebound to a no-op, including which length / bond mismatches raise. "
              "Validated only (dense linear algebra, stated tolerances): truncation after + / apply_to / @, norm, overlap, "
              "expect, expect_batch, get_correlation_matrix, apply, entanglement_entropy, from_state_amplitudes, "
-             "from_operator_repr, and operand invariance of every non-in-place operation. Not proved: zip_contract, "
-             "expect_spec, from_amplitudes_spec, from_operator_repr_spec."),
+             "from_operator_repr, and operand invariance of every non-in-place operation. Not proved: expect_spec (MPO.expect through "
+             "the baths of C02), from_amplitudes_spec, from_operator_repr_spec; that torch's QR factorises (oracle premise)."),
     "note": ("Trusted: Coq kernel+VM, the hand model (tied by the exact correspondence on every run), torch dense references. "
              "Theorems are exact-arithmetic statements; floating-point effects are covered only by the tolerance-based falsifier."),
 }
